@@ -32,6 +32,9 @@ func leaves(full bool) []*ref.Schema {
 		&ref.Schema{Type: "fixed", Name: "Md5", Namespace: "org.example", Size: 1, Logical: "decimal"},
 		&ref.Schema{Type: "enum", Name: "Suit", Symbols: []string{"SPADES", "HEARTS"}},
 		&ref.Schema{Type: "enum", Name: "One", Namespace: "n.s", Symbols: []string{"A"}},
+		// a dotted name next to a namespace attribute: both are attributes of the document and both must survive
+		&ref.Schema{Type: "fixed", Name: "com.example.Dotted", Namespace: "org.other", Size: 2},
+		&ref.Schema{Type: "enum", Name: "x.y.E2", Namespace: "zz", Symbols: []string{"P", "Q"}},
 	)
 	if !full {
 		return []*ref.Schema{ref.Prim("null"), ref.Prim("long"), ref.Prim("string"), ref.Logical("long", "timestamp-micros"), {Type: "fixed", Name: "Fx", Size: 16}, {Type: "enum", Name: "Suit", Symbols: []string{"SPADES", "HEARTS"}}}
@@ -48,7 +51,7 @@ func wrap(inner []*ref.Schema, pairs []*ref.Schema) []*ref.Schema {
 		nameCtr++
 		out = append(out, &ref.Schema{Type: "record", Name: fmt.Sprintf("R%d", nameCtr), Fields: []ref.Field{{Name: "f", Type: x}}})
 		nameCtr++
-		out = append(out, &ref.Schema{Type: "record", Name: fmt.Sprintf("R%d", nameCtr), Namespace: "com.example.pkg_x", Fields: []ref.Field{{Name: "a_field", Type: x}, {Name: "b", Type: ref.Prim("string")}}})
+		out = append(out, &ref.Schema{Type: "record", Name: fmt.Sprintf([]string{"R%d", "dotted.pkg.R%d"}[nameCtr%2], nameCtr), Namespace: "com.example.pkg_x", Fields: []ref.Field{{Name: "a_field", Type: x}, {Name: "b", Type: ref.Prim("string")}}})
 		if x.Type != "union" {
 			out = append(out, ref.Union(x))
 			if x.Type != "null" {
@@ -530,7 +533,7 @@ func init() {
 		ID:    "C14",
 		Level: "exploration",
 		Rule: func(tier string) string {
-			d := "depth<=2 over 17 leaves (8 primitives in string form, object-form primitives, 3 logical types, 2 fixed, 2 enum)"
+			d := "depth<=2 over 19 leaves (8 primitives in string form, object-form primitives, 3 logical types, 3 fixed, 3 enum; names with and without dots next to a namespace attribute)"
 			if tier == "thorough" {
 				d += " plus depth 3 over a 6-leaf alphabet"
 			}
